@@ -98,14 +98,17 @@ def check_small(ck, c):
         start, end = cen + rt * complex(-h, 0), cen + rt * complex(h, 0)
     else:
         start, end = cen + rt * complex(0, -h), cen + rt * complex(0, h)
+    exp = complex(S['num'][0] / float(S['den']), S['num'][1] / float(S['den']))
+    given = complex(*A['r'])
+    if A.get('near'):
+        given = exp * (1 - (1e-6 if A['near'] == 1 else 2e-8))     # nearly fitting radii: same shape, too small by a hair
     try:
-        arc = sp.Arc(start, complex(*A['r']), 15.0 * A['phi'], bool(A['fa']), bool(A['fs']), end)
+        arc = sp.Arc(start, given, 15.0 * A['phi'], bool(A['fa']), bool(A['fs']), end)
     except Exception as e:      # noqa
         ck.disagree(key='Arc/small-radius-raises', site='svgpathtools/path.py:Arc._parameterize', what='too-small radii %s raised %r' % (A, e),
                     case={'arc': A}, expected='enlarged radii', observed=repr(e), driver='small')
         return
-    exp = complex(S['num'][0] / float(S['den']), S['num'][1] / float(S['den']))
-    ok = abs(arc.radius.real - exp.real) <= 1e-12 * exp.real and abs(arc.radius.imag - exp.imag) <= 1e-12 * exp.imag
+    ok = abs(arc.radius.real - exp.real) <= 1e-11 * exp.real and abs(arc.radius.imag - exp.imag) <= 1e-11 * exp.imag
     ok = ok and abs(arc.center - cen) <= 1e-7 * (h + abs(cen)) and abs(abs(arc.delta) - 180) < 1e-5 and (arc.delta > 0) == bool(A['fs'])
     ok = ok and abs(arc.point(0) - start) < 1e-7 * (h + abs(cen) + 1) and abs(arc.point(1) - end) < 1e-7 * (h + abs(cen) + 1)
     if not ok:
@@ -114,7 +117,7 @@ def check_small(ck, c):
                         A['r'], A['h'], arc.radius, arc.center, arc.delta, exp), case={'arc': A}, expected=repr(exp), observed=repr(arc.radius), driver='small')
     # autoscale off must refuse
     try:
-        sp.Arc(start, complex(*A['r']), 15.0 * A['phi'], bool(A['fa']), bool(A['fs']), end, autoscale_radius=False)
+        sp.Arc(start, given, 15.0 * A['phi'], bool(A['fa']), bool(A['fs']), end, autoscale_radius=False)
         ck.disagree(key='Arc/small-radius-no-autoscale-accepted', site='svgpathtools/path.py:Arc._parameterize',
                     what='autoscale_radius=False accepted radii that fit no ellipse: %s' % A, case={'arc': A}, expected='ValueError', observed='Arc', driver='small')
     except ValueError:
@@ -143,7 +146,7 @@ def run(ck):
         else:
             check_small(ck, c)
             ck.sample('small', c)
-    d = ('SPECIFICATION Spec\nCONSTANTS Radii <- %s\n Phis <- %s\n Ths <- ThsAll\n Dls <- %s\n Centers <- %s\n SmallH <- SmallA\n'
+    d = ('SPECIFICATION Spec\nCONSTANTS Radii <- %s\n Phis <- %s\n Ths <- ThsAll\n Dls <- %s\n Centers <- %s\n SmallH <- SmallB\n SmallR <- SmallRA\n'
          'CONSTRAINT AtStart\nINVARIANT Dump\n')
     ck.tlc('ArcLattice', d % (('RadiiA', 'PhisA', 'DlsSome', 'CentersB') if quick else ('RadiiB', 'PhisA', 'DlsAll', 'CentersA')),
            workers=1, coverage=False, on_case=on_case, timeout=6000)
